@@ -120,9 +120,25 @@ def permuteVec (v : Vec) (new : List Elem) : Vec :=
 
 def ledgerLine (h0 h1 : Heap) : String := s!"ledger +{h1.nAlloc - h0.nAlloc} -{h1.nDealloc - h0.nDealloc}"
 
+/-- does the operation refer to a vector or element that does not exist (its construction threw)? -/
+def missingOperand (st : St) (toks : List String) : Bool :=
+  match toks with
+  | [] => false
+  | op :: args =>
+    if op == "new" || op == "cfg" || op == "emp" || op == "tables" || op == "matrix" || op == "end" || op == "failat" || op == "failoff" then false else
+    (List.zip (List.range args.length) args).any (fun (a, t) =>
+      if t.length == 2 && t.startsWith "v" then
+        let isTarget := (op == "copy" || op == "move") && a == 1
+        !isTarget && (st.w.vecs (t.drop 1).toString.toNat!).isNone
+      else if t.length == 2 && t.startsWith "e" then
+        let isTarget := ((op == "elem" || op == "elemref" || op == "elemmv") && a == 0) || ((op == "elemcopy" || op == "elemmove") && a == 1)
+        !isTarget && (st.elems (t.drop 1).toString.toNat!).isNone
+      else false)
+
 /-- one operation line ↦ new state and output lines -/
 def step (st : St) (line : String) : St × List String :=
   let toks := (line.splitOn " ").filter (· ≠ "")
+  if missingOperand st toks then (st, ["skip-missing"]) else
   let w := st.w
   let fin (w' : World) (outs : List String) : St × List String :=
     let errs := (w'.heap.errs.drop w.heap.errs.length).map (fun e => s!"MODEL-LEDGER-ERROR {e}")
@@ -141,6 +157,7 @@ def step (st : St) (line : String) : St × List String :=
     (st, requiredCells.map (fun (o, c, v) => s!"cell {showOp o} {showCat c} {showVal v}"))
   | ["tables"] => (st, [tablesLine st.ps])
   | ["failat", k] => ({ st with w := { w with heap := { w.heap with fail := some k.toNat! } } }, ["ok"])
+  | ["failoff"] => ({ st with w := { w with heap := { w.heap with fail := none } } }, ["ok"])
   | ["new", v, cap, bytes, fixed, alloc] =>
     let k := vidx v
     let fs := expandFixed st.ps (parseList fixed)
